@@ -282,6 +282,14 @@ def check_property(pid, tier="quick", seed=0, out=sys.stdout):
     b_distinct = sum(int(r.get("distinct_nontrivial", 0) or 0) for r in bounded_reports)
     if n_obl == 0 and bounded_reports:
         level = "exploration"  # nothing was proved for this property: bounded stand-ins only
+    try:
+        # the level is the one CLAIMED for the property: where the proved functions do not carry the property (C17) the claim is
+        # 'exploration', and the evidence says so too however many obligations were discharged
+        claimed = next(c["level_claimed"]["category"] for c in json.load(open(os.path.join(VERIF, "MANIFEST.json")))["checks"] if c["property_id"] == pid)
+        if claimed == "exploration" and level == "proof":
+            level = "exploration"
+    except Exception:  # noqa: BLE001,S110
+        pass
     ev = {
         "property_id": pid,
         "tier": tier,
